@@ -58,8 +58,8 @@ namespace bxdecay0 {
     double tclev;
     double thlev;
     double thnuc;
-    particle * ipg1173 = nullptr;
-    particle * ipg1333 = nullptr;
+    int npg1173 = -1;
+    int npg1333 = -1;
     // Scheme of Co60 decay ("Table of Isotopes", 7th ed., 1978).
     // Four-figured labels correspond to energies of 60Ni excited
     // levels in keV.
@@ -105,7 +105,7 @@ namespace bxdecay0 {
     // DT_TRACER_MESSAGE(10001,"p2 = " << p);
     if (p <= cg) {
       decay0_gamma(prng_, event_, Egamma, tclev, thlev, tdlev);
-      ipg1173 = &event_.grab_last_particle();
+      npg1173 = event_.get_particles().size() - 1;
     } else if (p <= cg + cK) {
       decay0_electron(prng_, event_, Egamma - EbindK, tclev, thlev, tdlev);
       decay0_gamma(prng_, event_, EbindK, 0., 0., tdlev);
@@ -148,7 +148,7 @@ namespace bxdecay0 {
     // DT_TRACER_MESSAGE(10001,"p4 = " << p);
     if (p <= cg) {
       decay0_gamma(prng_, event_, Egamma, tclev, thlev, tdlev);
-      ipg1333 = &event_.grab_last_particle();
+      npg1333 = event_.get_particles().size() - 1;
     } else if (p <= cg + cK) {
       decay0_electron(prng_, event_, Egamma - EbindK, tclev, thlev, tdlev);
       decay0_gamma(prng_, event_, EbindK, 0., 0., tdlev);
@@ -156,7 +156,9 @@ namespace bxdecay0 {
       decay0_pair(prng_, event_, Egamma - 1.022, tclev, thlev, tdlev);
     }
     // Angular correlation between gammas 1173 and 1333 keV, L.Pandola + VIT
-    if (ipg1333 != nullptr && ipg1173 != nullptr) {
+    if (npg1333 >= 0 && npg1173 >= 0) {
+      particle * ipg1333 = &event_.grab_particles()[npg1333];
+      particle * ipg1173 = &event_.grab_particles()[npg1173];
       double p1333 = ipg1333->get_p();
       double p1173 = ipg1173->get_p();
       // DT_TRACER_MESSAGE(10001,"gammas 1173 and 1333 correlation");
